@@ -1,3 +1,4 @@
 SPECIFICATION TraceSpec
+INVARIANTS OrderConsistent
 POSTCONDITION TraceAccepted
 CHECK_DEADLOCK FALSE
